@@ -29,6 +29,9 @@ pub enum Op {
     /// 00:00:00 + delta ns: kind 0 = Time + Time, 1 = Time + Duration, 2 = Time - Time (operand = the
     /// value itself + delta), 3 = add_nanos/add_seconds when the complement fits
     Complement { kind: u8, delta: i8 },
+    /// Time::parse of a late time of day with several fraction fields of different widths (their
+    /// sum is what the parser adds up): Ok values must still lie inside the day
+    ParseFractions { secs: u32, widths: Vec<u8>, nines: bool },
 }
 
 #[derive(Debug, Clone, Hash, Serialize, Deserialize)]
@@ -82,6 +85,14 @@ fn gen_op(u: &mut Unstructured) -> arbitrary::Result<Op> {
         13 => Op::AsOffset { off: gen::offset(u)? },
         14 => Op::FromDateTime { i: gen::inst(u, 2)?, off: gen::offset(u)? },
         15 if u.coin(1, 2)? => Op::Complement { kind: u.below(4)? as u8, delta: *u.choose(&[0i8, 0, 1, -1, 2])? },
+        15 if u.coin(1, 2)? => {
+            let n = 1 + u.below(4)? as usize;
+            let mut widths = Vec::new();
+            for _ in 0..n {
+                widths.push(1 + u.below(5)? as u8);
+            }
+            Op::ParseFractions { secs: if u.coin(2, 3)? { 86_399 } else { u.int_in_range(0..=86_399u32)? }, widths, nines: u.coin(2, 3)? }
+        }
         _ => Op::FormatParse,
     })
 }
@@ -146,6 +157,7 @@ fn model_apply(m: &mut Model, op: &Op) -> Option<bool> {
         }
         Op::FormatParse => {}
         Op::Complement { .. } => {} // resolved into a concrete operation before it gets here
+        Op::ParseFractions { .. } => {} // the resulting value is adopted from the implementation
     }
     Some(true)
 }
@@ -223,6 +235,23 @@ fn impl_apply(t: Time, op: &Op) -> Result<Time, AstrolabeError> {
         Op::FromDateTime { i, off } => Time::from(mk_dt_off(i.i(), *off)),
         Op::FormatParse => Time::parse(&t.format(PATTERN), PATTERN)?,
         Op::Complement { .. } => t,
+        Op::ParseFractions { secs, widths, nines } => {
+            // adjacent fields of one symbol would merge into one run: separate them with a space
+            let mut pattern = String::from("HH:mm:ss");
+            let mut text = format!("{:02}:{:02}:{:02}", secs / 3600, secs / 60 % 60, secs % 60);
+            for (k, w) in widths.iter().enumerate() {
+                let digits = [1usize, 2, 3, 6, 9][(*w as usize - 1).min(4)];
+                pattern.push(' ');
+                text.push(' ');
+                for _ in 0..*w {
+                    pattern.push('n');
+                }
+                for d in 0..digits {
+                    text.push(if *nines { '9' } else { (b'0' + ((k * 7 + d * 3 + *secs as usize) % 10) as u8) as char });
+                }
+            }
+            Time::parse(&text, &pattern)?
+        }
     })
 }
 
@@ -241,6 +270,7 @@ fn op_name(op: &Op) -> &'static str {
         Op::FromDateTime { .. } => "from_datetime",
         Op::FormatParse => "format_parse",
         Op::Complement { .. } => "complement",
+        Op::ParseFractions { .. } => "parse_fractions",
     }
 }
 
@@ -331,6 +361,7 @@ fn run_history(c: &Case, cx: &mut Cx) -> Verdict {
             Op::Dur { nanos, .. } if *nanos > 999_999_999 => return Verdict::Skip("malformed case"),
             Op::Set { field, .. } if *field > 5 => return Verdict::Skip("malformed case"),
             Op::Clear { until } if *until > 5 => return Verdict::Skip("malformed case"),
+            Op::ParseFractions { secs, widths, .. } if *secs > 86_399 || widths.len() > 8 || widths.iter().any(|w| *w == 0 || *w > 5) => return Verdict::Skip("malformed case"),
             Op::SetOffset { off } | Op::AsOffset { off } if off.abs() > 86_399 => return Verdict::Skip("malformed case"),
             Op::FromDateTime { i, off } if !i.valid() || off.abs() > 86_399 || i.day < cal::MIN_DAY + 2 || i.day > cal::MAX_DAY - 2 => {
                 return Verdict::Skip("malformed case")
@@ -392,6 +423,12 @@ fn run_history(c: &Case, cx: &mut Cx) -> Verdict {
         match r {
             Err(p) => return fail(&format!("c08.{}.panic", name), format!("step {} {:?} on {} ns [{}] returns ({} ns)", i + 1, op, before.ns, before.off, m.ns), p.short()),
             Ok(Err(e)) => {
+                if matches!(op, Op::ParseFractions { .. }) {
+                    // a refusal (e.g. the fractions add up beyond the day) leaves the value unchanged
+                    cx.label("parse_fractions_refused");
+                    m = before;
+                    continue;
+                }
                 if matches!(op, Op::FormatParse) {
                     // parse(format(..)) is the subject of C12; a refusal leaves the value unchanged
                     cx.label("format_parse_refused");
@@ -411,6 +448,18 @@ fn run_history(c: &Case, cx: &mut Cx) -> Verdict {
                     return fail(&format!("c08.{}.accepts_out_of_range", name), format!("step {} {:?} is refused", i + 1, op), format!("Ok({} ns)", nt.as_nanos()));
                 }
                 t = nt;
+                if let Op::ParseFractions { .. } = op {
+                    // how several fraction fields combine is not specified: only "inside the day, offset 0"
+                    cx.nt("parse_with_several_fraction_fields");
+                    if t.as_nanos() as i128 >= DAY {
+                        return fail("c08.parse_fractions.not_in_day", format!("step {} {:?}: an Ok value lies inside the day", i + 1, op), format!("{} ns", t.as_nanos()));
+                    }
+                    m.ns = t.as_nanos() as i128;
+                    m.off = match t.get_offset() {
+                        Offset::Fixed(o) => o,
+                        _ => 0,
+                    };
+                }
                 if let Op::FromDateTime { .. } = op {
                     // which offset a Time converted from a DateTime carries is not stated by the
                     // property: adopt the implementation's choice (it must be a valid offset)
